@@ -5,6 +5,7 @@
   at the sizes n-1, n, n+1. The tree-level statement ("absent, never an older version") is the
   `expectTree` oracle of C01 with `strippedBlob`.
 -/
+import Frrs.Proofs.Stanza
 import Frrs.Oracle
 import Frrs.Props.C15
 namespace Frrs.C06
@@ -71,5 +72,36 @@ example : (runBytes { maxBlob := some 5 } (blobStream b!"123456")).out =
 /-- with a rename: the deletion names the renamed path -/
 example : (runBytes { maxBlob := some 5, path := { renames := [(b!"f", b!"g")] } } (blobStream b!"123456")).out =
     b!"feature done\ncommit refs/heads/main\nmark :2\ndata 0\nD g\n\ndone\n" := by decide +kernel
+
+/-! ### the blob stanza as the main loop handles it (for every payload) -/
+
+/-- **a targeted blob leaves no byte behind**: over the limit (strictly) or listed by id ⇒ nothing is written for the
+    stanza, the mark is remembered (so that `M` lines naming it become deletions, `stripped_M_is_filtered_D`), the mark is
+    not counted as emitted, and the loop resumes right after the payload -/
+theorem stripped_blob_writes_nothing (o : FOpts) (s : FState) (line inp payload rest : Bytes) (n fuel : Nat)
+    (hs : s.skippingTag = false) (hb : s.inBlob = true) (hc : s.inCommit = false)
+    (hp1 : s.pendingTagReset = none) (hp2 : s.pendingBranchReset = none)
+    (hl : startsWith line b!"data " = true) (hh : parseDataHeader line = some n)
+    (hr : readExact n inp = some (payload, rest)) (hk : blobStripped o s n = true) :
+    ∃ s', step o s line inp fuel = .cont s' rest ∧ s'.out = s.out ∧ s'.inBlob = false ∧ s'.emitted = s.emitted ∧
+      (∀ m, s.lastBlobMark = some m → m ∈ s'.oversizeMarks) :=
+  blob_data_stripped o s line inp payload rest n fuel hs hb hc hp1 hp2 hl hh hr hk
+
+/-- and a blob that is not targeted is forwarded (nothing else is stripped) -/
+theorem untargeted_blob_is_forwarded (o : FOpts) (s : FState) (line inp payload rest : Bytes) (n fuel : Nat)
+    (hs : s.skippingTag = false) (hb : s.inBlob = true) (hc : s.inCommit = false)
+    (hp1 : s.pendingTagReset = none) (hp2 : s.pendingBranchReset = none)
+    (hl : startsWith line b!"data " = true) (hh : parseDataHeader line = some n)
+    (hr : readExact n inp = some (payload, rest)) (hk : blobStripped o s n = false) :
+    ∃ s', step o s line inp fuel = .cont s' rest ∧ s'.oversizeMarks = s.oversizeMarks ∧ s.out <+: s'.out := by
+  obtain ⟨s', h1, h2, _, _, h5⟩ := blob_data_kept o s line inp payload rest n fuel hs hb hc hp1 hp2 hl hh hr hk
+  exact ⟨s', h1, h5, by rw [h2]; exact List.prefix_append _ _⟩
+
+/-- the decision itself: strictly above `--max-blob-size`, or the id is in the list -/
+theorem strip_decision (o : FOpts) (s : FState) (n : Nat) :
+    blobStripped o s n = true ↔
+      (∃ mx, o.maxBlob = some mx ∧ mx < n) ∨ (∃ sha, s.lastBlobSha = some sha ∧ stripContains o.stripIds sha = true) := by
+  unfold blobStripped
+  cases hm : o.maxBlob <;> cases hs : s.lastBlobSha <;> simp
 
 end Frrs.C06
